@@ -669,17 +669,27 @@ func (r *runner) resolveCompletedTasks(ctx context.Context, completedTasks []*ta
 		nextNodeKeys = append(nextNodeKeys, t.call.writeTo...)
 
 		// If branches generates more than one successor, the inputs need to be copied accordingly.
+		dataCopyNum := len(t.call.writeTo) + len(t.call.writeToBranches)
 		if len(nextNodeKeys) > 0 {
 			toCopyNum := len(nextNodeKeys) - len(t.call.writeTo) - len(t.call.writeToBranches)
 			nVs := copyItem(vs[len(t.call.writeTo)+len(t.call.writeToBranches)-1], toCopyNum+1)
 			vs = append(vs[:len(t.call.writeTo)+len(t.call.writeToBranches)-1], nVs...)
+			dataCopyNum = len(vs)
 
 			for i, next := range nextNodeKeys {
 				if _, ok := writeChannelValues[next]; !ok {
 					writeChannelValues[next] = make(map[string]any)
 				}
+				if prev, ok := writeChannelValues[next][t.nodeKey]; ok {
+					// several branches selected the same successor: it reads one copy only
+					closeIfStream(prev)
+				}
 				writeChannelValues[next][t.nodeKey] = vs[i]
 			}
+		}
+		// copies made for successors that the branches did not select have no reader
+		for i := len(nextNodeKeys); i < dataCopyNum; i++ {
+			closeIfStream(vs[i])
 		}
 	}
 	return writeChannelValues, newDependencies, nil
@@ -827,6 +837,12 @@ func (r *runner) toComposableRunnable() *composableRunnable {
 	}
 
 	return cr
+}
+
+func closeIfStream(item any) {
+	if s, ok := item.(streamReader); ok {
+		s.close()
+	}
 }
 
 func copyItem(item any, n int) []any {
